@@ -5,6 +5,7 @@ from ..r_hygiene import rule_hygiene as _rule_hygiene
 from ..r_canon import rule_uncapped_sentinel as _rule_uncapped
 from ..r_canon import rule_morgan_layers as _rule_layers
 from ..r_canon import rule_chain_length_window as _rule_window
+from ..r_round9 import rule_morgan_layers_fresh as _r9_fresh
 
 LEVEL = 'other'
 
@@ -20,3 +21,4 @@ def run(ck, repo):
     _rule_uncapped(ck, repo, 'C17.D2-uncapped')
     _rule_layers(ck, repo, 'C17.D3-morgan-layers')
     _rule_window(ck, repo, 'C17.D2-length-window')
+    _r9_fresh(ck, repo, 'C17.D6-morgan-layers-fresh')
